@@ -312,7 +312,7 @@ def opaque_repo_call(interp, c, bound, node):
     names = sorted(bound)
     ts = [_arg_term(interp, bound[k]) for k in names]
     as_array = c.opaque_on_tables == "array"
-    f = z3.Function(f"{c.qualname}[{','.join(names)}|{','.join(str(t.sort()) for t in ts)}]", *([t.sort() for t in ts] + [OBJ if as_array else z3.RealSort()]))
+    f = z3.Function(f"{c.qualname}[{','.join(names)};{','.join(str(t.sort()) for t in ts)}]", *([t.sort() for t in ts] + [OBJ if as_array else z3.RealSort()]))
     interp.ctx.assumed.add(f"contract:{c.qualname.replace('pyrepseq.', '')} applied to an opaque table (value not unfolded; its preconditions on "
                            "the opaque argument are not checked)")
     if as_array:
